@@ -5,7 +5,6 @@
  * LICENSE file in the root directory of this source tree.
  */
 
-use std::ops::Add;
 use std::path::Path;
 use std::thread::sleep;
 use std::time::Duration;
@@ -77,7 +76,8 @@ impl Executor for StatefulExecutor {
         let timeout_at = if timeout_duration.is_zero() {
             None
         } else {
-            Some(Instant::now().add(timeout_duration))
+            // a limit that is beyond what the clock can express is no limit
+            Instant::now().checked_add(timeout_duration)
         };
         let timeout_left = || timeout_at.map(|at| at.duration_since(Instant::now()));
         let runner_gen = &self.0;
@@ -203,8 +203,8 @@ impl Executor for StatefulExecutor {
 }
 
 fn wait_until_path_or_time(path: &Path, timeout: Duration) {
-    let end = Instant::now().add(timeout);
-    while end > Instant::now() {
+    let end = Instant::now().checked_add(timeout);
+    while end.map_or(true, |end| end > Instant::now()) {
         if path.exists() {
             return;
         }
